@@ -382,3 +382,45 @@ class HeartbeatReport:
                 if ("obj", ("S", "id")) in ops and own in ops:
                     return (c[1][1] == "Eq") == c[2]
         return None
+
+
+# ----------------------------------------------------------------------- liveness decision
+class Liveness:
+    """table of FailureDetector::update_node_liveness with phi() kept as a pure opaque call"""
+
+    def __init__(self, fx, roles):
+        self.fx, self.roles = fx, roles
+        self.fn = roles.fd_update_node_liveness
+        self.phi_id = roles.fd_phi["id"]
+        self.reset_id = roles.sw_reset["id"]
+        self.eng = Engine(fx, no_inline={self.phi_id, self.reset_id}, opaque_pure={self.phi_id})
+        rows = self.eng.table(self.fn["id"], arg_terms={1: ("ptr", ("S", "self"), ()), 2: ("ptr", ("S", "id"), ())})
+        self.rows = [r for r in rows if r.exit == "return"]
+        self.other = [r for r in rows if r.exit != "return"]
+        FDT = "failure_detector::FailureDetector"
+        self.LIVE = ("ptr", ("S", "self"), (("f", FDT, "live_nodes"),))
+        self.DEAD = ("ptr", ("S", "self"), (("f", FDT, "dead_nodes"),))
+        self.THR = ("proj", ("proj", ("obj", ("S", "self")), ("f", FDT, "config")),
+                    ("f", "failure_detector::FailureDetectorConfig", "phi_threshold"))
+
+    def set_ops(self, row):
+        """(live inserted, live removed, dead inserted, dead removed) call lists"""
+        li, lr, di, dr = [], [], [], []
+        for e in row.events:
+            if e[0] != "call" or not e[2]:
+                continue
+            nm = sym.strip_all_generics(e[1]).split("::")[-1]
+            if e[2][0] == self.LIVE:
+                (li if nm == "insert" else lr if nm == "remove" else []).append(e)
+            if e[2][0] == self.DEAD:
+                (di if nm == "insert" else dr if nm == "remove" else []).append(e)
+        return li, lr, di, dr
+
+    def phi_terms(self):
+        out = []
+        for r in self.rows:
+            for c in r.cond:
+                for s in T.subterms(c[1]):
+                    if s[0] == "call" and s[1] == self.phi_id and s not in out:
+                        out.append(s)
+        return out
